@@ -18,12 +18,13 @@ EXTENDS Registry, Json
 
 CONSTANTS Focus      \* set of property ids, e.g. {"C02"}
 
-VARIABLES l,      \* next line of the trace file
+VARIABLES lastgc, \* repository collected by the immediately preceding event ("" otherwise)
+          l,      \* next line of the trace file
           skip,   \* the current trace already failed: ignore its remaining events
           fails,  \* sequence of failure records
           stats   \* [events, checked]: counters for the evidence
 
-tvars == <<vars, l, skip, fails, stats>>
+tvars == <<vars, lastgc, l, skip, fails, stats>>
 
 Trace == ndJsonDeserialize("trace.ndjson")
 
@@ -39,7 +40,7 @@ RespClass(e) == IF e.resp.panic \/ e.resp.hung THEN "error"
                 ELSE "error"
 
 IsRead(e)  == e.op.op \in {"BlobGet", "ManGet"}
-IsEnv(e)   == e.op.op \in {"Restart", "GC", "GCPass", "Age"}
+IsEnv(e)   == e.op.op \in {"Restart", "GC", "GCPass", "Age", "MkCorrupt"}
 
 \* the response: class, pinned status, and the fields the properties name
 CResp(e) ==
@@ -110,10 +111,39 @@ CNoErr(e) ==
   /\ ~e.resp.panic /\ ~e.resp.hung /\ (IsEnv(e) \/ e.resp.status < 500)
   /\ \A r \in DOMAIN e.obs : e.obs[r].errs = <<>>
 
+\* C05 / C06: a collection (op GC, or the collection a directory store runs on Close = op Restart).  `pre` is the
+\* state before, the observation is the state after.  Evaluated per collected repository.
+GCRepos(e) == IF Cfg.readOnly THEN {}
+              ELSE IF e.op.op = "GC" THEN {e.op.repo} \cap DOMAIN e.obs
+              ELSE IF e.op.op = "GCPass" THEN DOMAIN e.obs
+              ELSE IF e.op.op = "Restart" /\ env.store = "dir" /\ ~Cfg.readOnly THEN DOMAIN e.obs ELSE {}
+ObsB(e, r) == S(e.obs[r].blobs)
+ObsM(e, r) == {x.d : x \in S(e.obs[r].mans)}
+ObsT(e, r) == {<<x.t, x.d>> : x \in S(e.obs[r].tags)}
+\* nothing retained or recent is removed, nothing appears, tags and media types of what stays are untouched
+CGCSafe(e) ==
+  \A r \in GCRepos(e) :
+     /\ MustBlobs(r) \subseteq ObsB(e, r)
+     /\ MustAddr(r) \subseteq ObsM(e, r)
+     /\ ObsB(e, r) \subseteq blob[r] /\ ObsM(e, r) \subseteq ManSet(r)
+     /\ ObsT(e, r) = {<<t, tag[r][t]>> : t \in {x \in DOMAIN tag[r] : tag[r][x] \in blob[r]}}
+     /\ \A x \in S(e.obs[r].mans) : x.mt = man[r][x.d]
+\* once nothing is young, exactly the garbage is gone
+CGCExact(e) ==
+  \A r \in GCRepos(e) :
+     Young(r) = {} => /\ ObsB(e, r) \subseteq MayBlobs(r)
+                      \* (a manifest whose blob stays in another role, e.g. as a layer, may stay addressable)
+                      /\ ObsM(e, r) \subseteq MayMan(r) \cup MayBlobs(r)
+\* a second collection right after a collection changes nothing
+CGCIdem(e) ==
+  (e.op.op = "GC" /\ lastgc = e.op.repo /\ e.op.repo \in DOMAIN e.obs) =>
+     /\ ObsB(e, e.op.repo) = blob[e.op.repo] /\ ObsM(e, e.op.repo) = ManSet(e.op.repo)
+
 Clauses(e) ==
   { <<"resp", CResp(e)>>, <<"tagsresp", CTagsResp(e)>>, <<"integrity", CIntegrity(e)>>, <<"sync.blobs", CSyncBlobs(e)>>,
     <<"sync.mans", CSyncMans(e)>>, <<"sync.tags", CSyncTags(e)>>, <<"taglist", CTagList(e)>>,
-    <<"refs", CRefs(e)>>, <<"sess", CSess(e)>>, <<"noerr", CNoErr(e)>> }
+    <<"refs", CRefs(e)>>, <<"sess", CSess(e)>>, <<"noerr", CNoErr(e)>>,
+    <<"gc.safe", CGCSafe(e)>>, <<"gc.exact", CGCExact(e)>>, <<"gc.idem", CGCIdem(e)>> }
 
 \* which clauses a property enforces
 Enforced ==
@@ -122,18 +152,35 @@ Enforced ==
     C03 |-> {"resp", "tagsresp", "sync.mans", "sync.tags", "taglist", "noerr"},
     C04 |-> {"resp", "sync.blobs", "sync.mans", "sync.tags", "taglist", "refs", "noerr"},
     C07 |-> {"resp", "refs", "sync.mans", "noerr"},
-    C08 |-> {"resp", "sess", "sync.blobs", "noerr"} ]
+    C08 |-> {"resp", "sess", "sync.blobs", "noerr"},
+    C05 |-> {"gc.safe", "integrity", "sync.blobs", "sync.mans", "sync.tags", "taglist", "noerr"},
+    C06 |-> {"gc.exact", "gc.idem", "gc.safe", "sync.blobs", "sync.mans", "sync.tags", "taglist", "noerr"} ]
 
 Active == UNION {Enforced[p] : p \in Focus \cap DOMAIN Enforced}
 
 Failed(e) == {c[1] : c \in {x \in Clauses(e) : ~x[2] /\ x[1] \in Active}}
 
 -----------------------------------------------------------------------------
+\* A collection is nondeterministic in the model (MustBlobs <= kept <= MayBlobs): bind the next state to what was
+\* observed; the clauses above judge the observation against the policy.
+BindRepo(e, r) == r \in GCRepos(e)
+GCBind(e) ==
+  /\ blob' = [r \in Repos |-> IF BindRepo(e, r) THEN ObsB(e, r) \cap blob[r] ELSE blob[r]]
+  /\ man' = [r \in Repos |-> IF BindRepo(e, r) THEN Restrict(man[r], DOMAIN man[r] \cap ObsM(e, r)) ELSE man[r]]
+  /\ tag' = [r \in Repos |-> IF BindRepo(e, r)
+                               THEN Restrict(tag[r], {t \in DOMAIN tag[r] : tag[r][t] \in ObsM(e, r)}) ELSE tag[r]]
+  /\ young' = [r \in Repos |-> IF BindRepo(e, r) THEN young[r] \cap ObsB(e, r) ELSE young[r]]
+  /\ sess' = IF e.op.op = "Restart" THEN [h \in DOMAIN sess |-> [sess[h] EXCEPT !.open = FALSE]] ELSE sess
+  /\ resp' = Ok(0)
+  /\ UNCHANGED <<env, nsess>>
+IsCollection(e) == GCRepos(e) # {} /\ ~(e.op.op = "Restart" /\ GCNoop)
+Step(e) == IF IsCollection(e) THEN GCBind(e) ELSE Do(e.op)
+
 TraceInit ==
   /\ Trace[1].k = "reset"
   /\ env = EnvOf(Trace[1])
   /\ InitState
-  /\ l = 2 /\ skip = FALSE /\ fails = <<>>
+  /\ l = 2 /\ skip = FALSE /\ fails = <<>> /\ lastgc = ""
   /\ stats = [events |-> 0, checked |-> 0, traces |-> 1]
 
 TraceReset ==
@@ -145,16 +192,17 @@ TraceReset ==
      /\ tag' = [r \in ReposOf(en) |-> <<>>]
      /\ young' = [r \in ReposOf(en) |-> {}]
   /\ sess' = <<>> /\ nsess' = 0 /\ resp' = R0
-  /\ l' = l + 1 /\ skip' = FALSE /\ UNCHANGED fails
+  /\ l' = l + 1 /\ skip' = FALSE /\ UNCHANGED fails /\ lastgc' = ""
   /\ stats' = [stats EXCEPT !.traces = @ + 1]
 
 TraceOp ==
   /\ l <= Len(Trace) /\ Trace[l].k = "op"
   /\ l' = l + 1
   /\ IF skip
-     THEN UNCHANGED <<vars, skip, fails>> /\ stats' = [stats EXCEPT !.events = @ + 1]
+     THEN UNCHANGED <<vars, skip, fails, lastgc>> /\ stats' = [stats EXCEPT !.events = @ + 1]
      ELSE LET e == Trace[l] IN
-          /\ Do(e.op)
+          /\ Step(e)
+          /\ lastgc' = IF e.op.op = "GC" THEN e.op.repo ELSE ""
           /\ LET f == Failed(e) IN
              /\ fails' = IF f = {} THEN fails
                          ELSE Append(fails, [trace |-> env.trace, i |-> e.i, line |-> l, op |-> e.op.op, clauses |-> f])
